@@ -145,8 +145,12 @@ def check_property(prop_id, specs, tier, seed, meta):
             else:
                 inconclusive.append(r)
 
+    seen_keys = {}
     for key, r in known_hits:
-        print('KNOWN-FINDING: property=%s %s [%s] %s' % (prop_id, key, r['name'], open_keys[key].get('what', '')))
+        seen_keys.setdefault(key, []).append(r['name'])
+    for key, names in seen_keys.items():
+        print('KNOWN-FINDING: property=%s %s (%d obligation(s): %s) %s' % (
+            prop_id, key, len(names), ', '.join(names[:4]), open_keys[key].get('what', '')[:220]))
     code = EXIT_OK
     replay_paths = []
     for r in violations:
